@@ -109,7 +109,22 @@ impl Property for C11 {
                     t += rng.range(240_000, 400_000);
                 }
             }
-            sc.params.insert("k_eff".into(), keeper_from as i64);
+            // one contact is advertised with port 0 (by the first stub's answers): every ping to it
+            // fails to send (EINVAL) while everything else works; it counts among the contacts that
+            // can be questionable
+            let port0 = rng.chance(1, 2);
+            if port0 {
+                let r = NodeRef { id: id_with_lcp(&own, 30, &mut rng), addr: SocketAddr::new(addr(v6, 5, 1, 1).ip(), 0) };
+                sc.world.stubs[0].nodes = match sc.world.stubs[0].nodes.clone() {
+                    NodesMode::Fixed(mut l) => {
+                        l.push(r);
+                        NodesMode::Fixed(l)
+                    }
+                    _ => NodesMode::ClosestPlus(vec![r]),
+                };
+                sc.params.insert("port0".into(), 1);
+            }
+            sc.params.insert("k_eff".into(), keeper_from as i64 + port0 as i64);
         }
         let searches = !starve && rng.chance(1, 2);
         if searches {
@@ -263,6 +278,9 @@ impl Property for C11 {
         if sc.param("starve") != 0 {
             v.hit("group_of_contacts_falls_silent_together");
         }
+        if run.stats.get("send_to_port_0_einval").copied().unwrap_or(0) > 0 {
+            v.hit("refresh_ping_fails_to_send");
+        }
         if sc.reals[0].nodes.len() == 1 && n > 1 {
             v.hit("single_bootstrap_contact");
         }
@@ -274,12 +292,12 @@ impl Property for C11 {
         v
     }
     fn rule(&self) -> &'static str {
-        "one real node (serving or read-only), 1..8 stub contacts (1 in 5 runs: 10..18 contacts spread over prefix depths so that no bucket fills; in half of those (16..20 contacts, serving node) 10..11 contacts keep themselves good by pinging the node, 4..6 of the others fall silent at the same instant, no searches run), loss-free, 1..6 virtual hours; each contact always answers or goes silent at a drawn time (or never answers); contacts name each other all the time or only by a drawn subset; single bootstrap contact or all listed; with and without interleaved searches; load_contacts sampled every 2.3..4.9 s, a find_node probe every 61 s. non-trivial = more than 100 samples and at least one always-answering contact admitted; distinct = distinct order digests"
+        "one real node (serving or read-only), 1..8 stub contacts (1 in 5 runs: 10..18 contacts spread over prefix depths so that no bucket fills; in half of those (16..20 contacts, serving node) 10..11 contacts keep themselves good by pinging the node, 4..6 of the others fall silent at the same instant, no searches run, and in half of these one contact is advertised with port 0 so that pings to it fail to send), loss-free, 1..6 virtual hours; each contact always answers or goes silent at a drawn time (or never answers); contacts name each other all the time or only by a drawn subset; single bootstrap contact or all listed; with and without interleaved searches; load_contacts sampled every 2.3..4.9 s, a find_node probe every 61 s. non-trivial = more than 100 samples and at least one always-answering contact admitted; distinct = distinct order digests"
     }
     fn assumptions(&self) -> Vec<&'static str> {
         vec!["the 30 s freshness bound is the statement's for 1..8 contacts; for the 10..18-contact variant it is 6 s per 4 contacts + 30 s (without searches: + one sampling period instead of the 30 s, since only a search makes the node query a good contact; in the group-silence variant only the contacts that do not ping the node can ever be questionable, and only those count), which is what the statement's mechanism gives outside its range", "a responsive contact counts as lost when it is missing at two consecutive samples (a single miss can be the sub-RTT state in which two pings are in flight, which C10 defines as not reported)", "silent-contact deadline = max(last accepted answer + 20 min, last naming + 5 min) plus one RTT and one sampling period"]
     }
     fn required_reach(&self) -> Vec<&'static str> {
-        vec!["turned_questionable_then_good_again", "silent_contact_purged", "more_than_8_contacts_variant", "group_of_contacts_falls_silent_together", "single_bootstrap_contact", "three_hours_or_more"]
+        vec!["turned_questionable_then_good_again", "silent_contact_purged", "more_than_8_contacts_variant", "group_of_contacts_falls_silent_together", "refresh_ping_fails_to_send", "single_bootstrap_contact", "three_hours_or_more"]
     }
 }
